@@ -299,11 +299,24 @@ def _simp(e):
 def discharge1(axioms, pc, goal, timeout_ms=None, both=False):
     timeout_ms = timeout_ms or QUICK_MS
     t0 = time.time()
-    s = _solver(timeout_ms)
-    s.add(*axioms)
-    s.add(*[_simp(p) for p in pc])
-    s.add(z3.Not(_simp(goal)))
-    r = s.check()
+    # portfolio: quantifier instantiation is heuristic and sensitive to irrelevant facts; a few cheap re-runs with other
+    # random seeds / without model-based instantiation settle most `unknown`s (never turns an answer into another)
+    spc = [_simp(p) for p in pc]
+    ng = z3.Not(_simp(goal))
+    configs = [{}, {"smt.random_seed": 7}, {"smt.random_seed": 23, "smt.mbqi": False}, {"smt.random_seed": 101, "smt.qi.eager_threshold": 100.0}]
+    slice_ms = max(1500, timeout_ms // 5)
+    r = None
+    for ci, cfg in enumerate(configs):
+        last = ci == len(configs) - 1
+        s = _solver(timeout_ms if last else slice_ms)
+        for k, v in cfg.items():
+            s.set(k, v)
+        s.add(*axioms)
+        s.add(*spc)
+        s.add(ng)
+        r = s.check()
+        if r != z3.unknown:
+            break
     secs = time.time() - t0
     if r == z3.unsat and not both:
         return Result("discharged", "z3-5.1(api)", secs)
